@@ -11,6 +11,7 @@ import (
 func init() {
 	verifHarnesses["HarnessC13"] = HarnessC13
 	verifHarnesses["HarnessC13Cap"] = HarnessC13Cap
+	verifHarnesses["HarnessC13Quota"] = HarnessC13Quota
 }
 
 // HarnessC13: a = {senders, messages per sender, busy indications, pause in ms, wait time of the
@@ -103,4 +104,91 @@ func HarnessC13Cap(a []int) {
 	verifAssert("C13.cap.at_most_50ms", t1-t0 <= int64(50*time.Millisecond))
 	verifObserve("held_ns", t1-t0)
 	verifCover("C13.cap.end")
+}
+
+// HarnessC13Quota: a = {senders, messages per sender, busy indications, pause in ms, wait in ms
+// (-1: symbolic, all 65536 values)}.
+// The clause "after a routing-busy indication has been taken in, at most one further transmission
+// per goroutine that was already inside Send may still go out" under the FIFO hand-off policy of
+// sync.Mutex (starvation mode: a free mutex goes to the goroutine that has waited longest; the
+// engine's verifMutexFIFO). The server goroutine takes the indication in and arrives at the send
+// lock in one atomic step; every transmission between that arrival and the instant it owns the
+// lock must belong to a Send call entered before the arrival, at most one per goroutine, and from
+// then on nothing is transmitted for min(wait, 50 ms).
+func HarnessC13Quota(a []int) {
+	nS, per, nBusy, pauseMs, waitMs := a[0], a[1], a[2], a[3], a[4]
+	pause := time.Duration(pauseMs) * time.Millisecond
+	if len(a) < 6 {
+		verifMutexFIFO()
+	}
+	router, in := newRouterEnv(4, pause)
+	returned := 0
+	senderIDs := map[int]bool{}
+	entered := map[int][]int{} // goroutine -> event numbers at which its Send calls were entered
+	for i := 0; i < nS; i++ {
+		i := i
+		go func() {
+			id := verifThreadID()
+			senderIDs[id] = true
+			for j := 0; j < per; j++ {
+				entered[id] = append(entered[id], verifSeq())
+				router.Send(rmsg(i*per + j))
+				returned++
+			}
+		}()
+	}
+	wait := time.Duration(waitMs) * time.Millisecond
+	if waitMs < 0 {
+		// the announced wait time is symbolic: every 16-bit value
+		wait = time.Duration(nondetU16()) * time.Millisecond
+	}
+	for b := 0; b < nBusy; b++ {
+		in <- &knxnet.RoutingBusy{WaitTime: wait, Control: 1}
+	}
+	verifSleep(int64(10 * time.Second))
+	verifQuiesce()
+	_, stamps := routerSent()
+	verifAssert("C13.quota.every_send_returns", returned == nS*per)
+	verifAssert("C13.quota.all_transmitted", len(stamps) == nS*per)
+	silent := int64(wait)
+	if silent > int64(50*time.Millisecond) {
+		silent = int64(50 * time.Millisecond)
+	}
+	busySeen := 0
+	for i := 0; i < verifLockLogField(router, "sendMu"); i++ {
+		if senderIDs[verifLockFieldThread(router, "sendMu", i)] {
+			continue
+		}
+		busySeen++
+		arrive := verifLockFieldArriveSeq(router, "sendMu", i)
+		owned := verifLockFieldSeq(router, "sendMu", i)
+		T := verifLockFieldTime(router, "sendMu", i)
+		perThread := map[int]int{}
+		for w := 0; w < verifNetWrites(); w++ {
+			ws, wt := verifNetWriteSeq(w), verifNetWriteThread(w)
+			if ws > owned {
+				// after the hand-over: silence for the announced time
+				verifAssert("C13.quota.silent_interval", stamps[w] >= T+silent)
+				continue
+			}
+			if ws < arrive {
+				continue
+			}
+			// between "taken in" and "server owns the lock"
+			verifCover("C13.quota.transmission_after_busy")
+			perThread[wt]++
+			verifAssert("C13.quota.one_per_goroutine", perThread[wt] <= 1)
+			// the transmitting Send call was entered before the indication was taken in: it is the
+			// latest call of that goroutine entered before the write
+			last := -1
+			for _, en := range entered[wt] {
+				if en < ws {
+					last = en
+				}
+			}
+			verifAssert("C13.quota.already_inside_send", last >= 0 && last < arrive)
+		}
+	}
+	verifAssert("C13.quota.every_busy_taken_in", busySeen == nBusy)
+	verifCover("C13.quota.end")
 }
